@@ -605,6 +605,10 @@ def run(ctx, only=None):
     if only is None:
         concurrent_add(ctx)
         close_after_rejection(ctx)
+        import ls_iter
+        if ctx.harness(['p_nested_iter']):
+            # the clean-up itself with a delivery at every instruction boundary of drop(instance)
+            ls_iter.instr_sweep(ctx, ls_iter.C12_KINDS, configs=ls_iter.DROP_CONFIGS, key='instruction_drop_sweep')
     ctx.coverage['outcome_histogram'] = hist_outcomes(hists, impl)
 
 
